@@ -273,9 +273,14 @@ def run(ctx):
         x, y = claripy.BVS("mx", w, explicit_name=True), claripy.BVS("my", w, explicit_name=True)
         atoms = [claripy.ULT(x, rng.randrange(8)), x + y == rng.randrange(8), claripy.Or(x == 1, y == 2), x != y, claripy.SLE(x, y), (x & y) == 0,
                  claripy.And(x > 1, x < 6), claripy.Not(x == y), x * 2 == y, claripy.If(x > y, x, y) == 5]
+        # two-sided bounds on a bare variable, signed and unsigned, as separate constraints and as one conjunction (range-driven
+        # tactics narrow such variables; the result must still speak about the same variable)
+        lo_, hi_ = sorted(rng.sample(range(-4, 4), 2))
+        atoms += [claripy.SGE(x, claripy.BVV(lo_ % 8, w)), claripy.SLE(x, claripy.BVV(hi_ % 8, w)), claripy.And(claripy.SGE(y, claripy.BVV(lo_ % 8, w)), claripy.SLE(y, claripy.BVV(hi_ % 8, w))),
+                  claripy.UGE(x, rng.randrange(4)), claripy.ULE(x, rng.randrange(4, 8))]
         # tautologies only Z3 recognises (the rest of the set may collapse to `true`), and constraints that simplification must keep as they are
         tauts = [claripy.UGE(x | 4, 4), claripy.Or(claripy.ULT(x, 5), claripy.UGE(x, 5)), (x ^ y) == (y ^ x), claripy.ULE(x & y, x), (x + y) - y == x]
-        cons = rng.sample(atoms, rng.choice([0, 1, 2, 3, 4])) + rng.sample(tauts, rng.choice([0, 0, 1, 2]))
+        cons = rng.sample(atoms, rng.choice([0, 1, 2, 3, 4, 5])) + rng.sample(tauts, rng.choice([0, 0, 1, 2]))
         if not cons:
             cons = [rng.choice(atoms)]
         if rng.random() < 0.5:
@@ -291,6 +296,11 @@ def run(ctx):
                 s.simplify()
             except claripy.errors.ClaripyError as ex:
                 ctx.violation("C09/%s.simplify/raises" % cls.__name__, "%s.simplify() raised %r on %s" % (cls.__name__, ex, cons), {"constraints": [repr(c) for c in cons]})
+                continue
+            foreign = set().union(*[set(c.variables) for c in s.constraints] or [set()]) - {"mx", "my"}
+            if foreign:
+                ctx.violation("C09/%s.simplify/introduces-variables" % cls.__name__, "%s.simplify() of %s speaks about variables the constraints never had: %s" % (
+                    cls.__name__, cons, sorted(foreign)), {"solver": cls.__name__, "constraints": [repr(c) for c in cons]})
                 continue
             after = {(a, b) for a in range(8) for b in range(8) if all(E.ev(E.from_ast(c), {"mx": a, "my": b})[1] for c in s.constraints)}
             if before != after:
